@@ -207,6 +207,12 @@ func (d *Decoder) decodeValue(value reflect.Value) {
 			d.err = errors.Wrap(d.err, "decode interface")
 			return
 		}
+
+		// the constructor id is chosen by the peer: it may name a type that doesn't fit this field
+		if val == nil || !reflect.TypeOf(val).ConvertibleTo(value.Type()) {
+			d.err = fmt.Errorf("decode interface: %T can't be used as %v", val, value.Type())
+			return
+		}
 	default:
 		panic("неизвестная штука: " + value.Type().String())
 	}
